@@ -201,6 +201,9 @@ def run(ctx, rep):
                 if d is not None and d['rv']['k'] == 'agg' and d['rv'].get('variant') == 'Some':
                     c = op_const(d['rv']['ops'][0])
                     ok = c is not None and c.get('val') == 1
+                elif d is not None and d['rv']['k'] == 'agg' and (d['rv'].get('adt') or '').startswith('fatfs::') and \
+                        not d['rv'].get('ops') and 'dir' in (d['rv'].get('variant') or '').lower():
+                    ok = True  # the filter as a private enum (`EntryKind::Dir`) instead of `Some(true)`
             rep.oblige('R1.5', '%s|bb%d' % (fn.name, b), ok=ok, nontrivial=True)
             if not ok:
                 rep.violation('R1.5', vkey('R1.5', fn.name, 'find_entry', t['span']['snip']), fn.loc(t['span']),
